@@ -63,6 +63,7 @@ fn parts(enc: &[u8]) -> Option<String> {
 }
 
 pub fn check_one(enc: &[u8], generated: Option<&Response<'static>>) -> (String, String) {
+    let _w = crate::util::watch(enc);
     let r = std::panic::catch_unwind(|| {
         let mut buf: Vec<u8> = enc.to_vec();
         let (before, consumed, owned) = {
